@@ -103,7 +103,7 @@ def c05_3(ctx):
     init = ctx.repo.func(MZ + '.__init__')
     res = resolver(ctx, init)
     cl = _exit_facts(ctx, init, res)
-    for key, req in (('init:address-width', 'end <= 2**address_bits - 1'), ('init:not-inverted', 'start <= end')):
+    for key, req in (('init:address-width', 'end <= 2**address_bits - 1'), ('init:not-inverted', 'start <= end'), ('init:not-below-zero', 'start >= 0')):
         ctx.check(clause_implies(cl, lit_cmp(ctx, init, req, res)), key, init.site(),
                   f'constructor returns normally only if {req}', f'facts at normal return: {describe_facts(cl)}')
     cz = ctx.repo.func(MGR + '.create_zone')
